@@ -13,7 +13,11 @@ size_t g_allocs, g_frees, g_newobj, g_freedobj;
 struct Elem { uint32_t serial; uint32_t life; };
 static void *verif_malloc(size_t n) { void *p = malloc(n); __CPROVER_assume(p != 0); g_allocs++; g_newobj = __CPROVER_POINTER_OBJECT(p); return p; }
 static void verif_free(void *p) { if (p != 0) { g_frees++; g_freedobj = __CPROVER_POINTER_OBJECT(p); } free(p); }
+_Bool nondet_bool(void);
 static void *verif_realloc(void *old, size_t n) {
+  if (n == 0 && old != 0 && nondet_bool()) {      /* realloc(p, 0) is implementation-defined: glibc frees p and returns NULL */
+    g_frees++; g_freedobj = __CPROVER_POINTER_OBJECT(old); free(old); return 0;
+  }
   unsigned char *p = malloc(n); __CPROVER_assume(p != 0); g_allocs++; g_newobj = __CPROVER_POINTER_OBJECT(p);
   if (old != 0) {
     size_t oc = __CPROVER_OBJECT_SIZE(old);
